@@ -67,6 +67,9 @@ pub struct We<X>(pub X);
 impl<X: ::core::fmt::Debug> ::core::fmt::Debug for We<X> { fn fmt(&self, f: &mut ::core::fmt::Formatter<'_>) -> ::core::fmt::Result { f.write_str("we") } }
 impl<X: ::core::fmt::Debug> ::core::fmt::Display for We<X> { fn fmt(&self, f: &mut ::core::fmt::Formatter<'_>) -> ::core::fmt::Result { f.write_str("we") } }
 impl<X: ::core::fmt::Debug> ::std::error::Error for We<X> {}
+
+/// a unit type for constants that hostile scopes declare (C15)
+#[derive(Clone, Copy, Debug, PartialEq)] pub struct Cn;
 '''
 
 GENS = [
